@@ -330,8 +330,11 @@ impl MachineAdapter for TestRunnerAdapter {
     }
 
     fn next(&mut self) -> MosResult<()> {
+        // The runner stays locked until the new state has been stored: the machine thread, which executes under
+        // the same lock, then sees that the machine is stopped (also when the step was requested while it was running)
+        let runner = self.runner.clone();
+        let mut runner = runner.write().unwrap();
         let result = {
-            let mut runner = self.runner.write().unwrap();
             #[cfg(datatrash_mos_verif)]
             let verif_pc0 = runner.cpu().get_program_counter();
             let result = runner.step_over()?;
@@ -348,7 +351,12 @@ impl MachineAdapter for TestRunnerAdapter {
             result
         };
         match result {
-            ExecuteResult::Running => self.pause()?,
+            ExecuteResult::Running => {
+                let pc = runner.cpu().get_program_counter();
+                self.update_state(MachineRunningState::Stopped(ProgramCounter::new(
+                    pc as usize,
+                )))?;
+            }
             // The step has ended the test (a failing assertion, or the end of the test was reached)
             result => report_test_end(
                 result,
@@ -361,8 +369,11 @@ impl MachineAdapter for TestRunnerAdapter {
     }
 
     fn step_in(&mut self) -> MosResult<()> {
+        // The runner stays locked until the new state has been stored: the machine thread, which executes under
+        // the same lock, then sees that the machine is stopped (also when the step was requested while it was running)
+        let runner = self.runner.clone();
+        let mut runner = runner.write().unwrap();
         let result = {
-            let mut runner = self.runner.write().unwrap();
             #[cfg(datatrash_mos_verif)]
             let verif_pc0 = runner.cpu().get_program_counter();
             let result = runner.execute_instruction()?;
@@ -379,7 +390,12 @@ impl MachineAdapter for TestRunnerAdapter {
             result
         };
         match result {
-            ExecuteResult::Running => self.pause()?,
+            ExecuteResult::Running => {
+                let pc = runner.cpu().get_program_counter();
+                self.update_state(MachineRunningState::Stopped(ProgramCounter::new(
+                    pc as usize,
+                )))?;
+            }
             // The step has ended the test (a failing assertion, or the end of the test was reached)
             result => report_test_end(
                 result,
@@ -392,8 +408,11 @@ impl MachineAdapter for TestRunnerAdapter {
     }
 
     fn step_out(&mut self) -> MosResult<()> {
+        // The runner stays locked until the new state has been stored: the machine thread, which executes under
+        // the same lock, then sees that the machine is stopped (also when the step was requested while it was running)
+        let runner = self.runner.clone();
+        let mut runner = runner.write().unwrap();
         let result = {
-            let mut runner = self.runner.write().unwrap();
             #[cfg(datatrash_mos_verif)]
             let verif_pc0 = runner.cpu().get_program_counter();
             let result = runner.step_out()?;
@@ -410,7 +429,12 @@ impl MachineAdapter for TestRunnerAdapter {
             result
         };
         match result {
-            ExecuteResult::Running => self.pause()?,
+            ExecuteResult::Running => {
+                let pc = runner.cpu().get_program_counter();
+                self.update_state(MachineRunningState::Stopped(ProgramCounter::new(
+                    pc as usize,
+                )))?;
+            }
             // The step has ended the test (a failing assertion, or the end of the test was reached)
             result => report_test_end(
                 result,
